@@ -35,16 +35,27 @@ fn top_limb() -> BoxedStrategy<u64> {
         // limit lies near 2^62.5)
         3 => any::<u64>().prop_map(|x| (1u64 << 62) + (x >> 2)),
         2 => (0u64..1 << 20, any::<bool>()).prop_map(|(d, up)| if up { 0x5A82_7999_FCEF_3242u64 + d } else { 0x5A82_7999_FCEF_3242u64 - d }),
+        // 3m = 2^(64N): the exact point where the square path's intermediate can carry out
+        4 => (0u64..4, any::<bool>()).prop_map(|(d, up)| if up { u64::MAX / 3 + d } else { u64::MAX / 3 - d }),
+        1 => (0u64..4, any::<bool>()).prop_map(|(d, up)| if up { u64::MAX / 3 * 2 + d } else { u64::MAX / 3 * 2 - d }),
     ]
     .boxed()
 }
 
 /// odd modulus >= 3 below 2^bits, laid out in n limbs
 fn modulus(n: usize, bits: usize) -> BoxedStrategy<Vec<u64>> {
-    (limbs(n), top_limb(), any::<bool>())
-        .prop_map(move |(mut v, top, all_ones_low)| {
-            if all_ones_low {
+    (limbs(n), top_limb(), 0u8..8)
+        .prop_map(move |(mut v, top, low)| {
+            // low limbs: as drawn (0..4), all ones (4..6), all ones above a lowest limb of 1 (6),
+            // all ones above a drawn lowest limb (7)
+            if low >= 4 {
+                let v0 = v[0];
                 v.iter_mut().for_each(|x| *x = u64::MAX);
+                match low {
+                    6 => v[0] = 1,
+                    7 => v[0] = v0,
+                    _ => {}
+                }
             }
             v[n - 1] = top;
             let mut v = mask_vec(v, bits);
@@ -164,7 +175,7 @@ fn main() {
     }
     let spec = PropSpec {
         id: "C11",
-        rule_text: "tuples (a, b, m) for every limb count N = 1..16 (slice-level functions) and for 18 widths with LIMBS 1..9, aligned and not (Uint methods): m odd >= 3 with top limb from {0 (short modulus), 1, 2^62-2, 2^62-1, 2^62, 2^62+1, 2^63-2, 2^63-1, 2^63, 2^63+1, u64::MAX-1, u64::MAX, alphabet} and alphabet or all-ones low limbs; a, b from {0, 1, 2, m-1, m-2, (m+-1)/2, R mod m, R^2 mod m, alphabet mod m}; inv = -m^-1 mod 2^64 from the harness's own Newton iteration. Oracle: result < m and result * 2^(64N) = a*b (mod m) in num-bigint. Non-trivial: a, b != 0 and a*b >= m; hook counters report extra-carry / final-subtraction paths. Distinct by inputs.",
+        rule_text: "tuples (a, b, m) for every limb count N = 1..16 (slice-level functions) and for 18 widths with LIMBS 1..9, aligned and not (Uint methods): m odd >= 3 with top limb from {0 (short modulus), 1, 2^62-2, 2^62-1, 2^62, 2^62+1, 2^63-2, 2^63-1, 2^63, 2^63+1, u64::MAX-1, u64::MAX, floor(2^64/3)+-{0..3}, 2*floor(2^64/3)+-{0..3}, dense in [2^62,2^63), alphabet} and low limbs that are drawn from the alphabet, all ones, or all ones above a lowest limb of 1 / a drawn lowest limb; a, b from {0, 1, 2, m-1, m-2, (m+-1)/2, R mod m, R^2 mod m, alphabet mod m}; inv = -m^-1 mod 2^64 from the harness's own Newton iteration. Oracle: result < m and result * 2^(64N) = a*b (mod m) in num-bigint. Non-trivial: a, b != 0 and a*b >= m; hook counters report extra-carry / final-subtraction paths. Distinct by inputs.",
         assumptions: vec![
             "num-bigint arithmetic is correct (oracle)",
             "inputs satisfy the documented preconditions a, b < m, m odd, inv = -m^-1 mod 2^64",
